@@ -94,21 +94,20 @@ deriving Repr, DecidableEq, Inhabited
 /-- The `for (i, c) in self.char_indices.by_ref()` loop of `advance_to_relative`:
     consumes at least one character if there is one, stops after the character whose end
     reaches `position`. Collected line starts are in reverse order of discovery. -/
-def advLoop (offset position : Nat) : AdvSt → AdvSt
-  | ⟨[], rel, lc, np, st⟩ => ⟨[], rel, lc, np, st⟩
-  | ⟨c :: w, rel, lc, _, st⟩ =>
+def advLoop (offset position : Nat) : List Nat → Nat → Nat → Nat → List Nat → AdvSt
+  | [], rel, lc, np, st => ⟨[], rel, lc, np, st⟩
+  | c :: w, rel, lc, _, st =>
     if rel + utf8Len c ≥ position then
       ⟨w, rel + utf8Len c, c, rel, if lc = 10 then (rel + offset) :: st else st⟩
     else
-      advLoop offset position
-        ⟨w, rel + utf8Len c, c, rel, if lc = 10 then (rel + offset) :: st else st⟩
-termination_by s => s.rest.length
+      advLoop offset position w (rel + utf8Len c) c rel
+        (if lc = 10 then (rel + offset) :: st else st)
 
 /-- `advance_to_relative` -/
 def Iter.advanceToRel (it : Iter) (position : Nat) : Iter :=
   if position < it.lastPosition then it
   else
-    match advLoop it.offset position ⟨it.rest, it.rel, it.lastChar, 0, []⟩ with
+    match advLoop it.offset position it.rest it.rel it.lastChar 0 [] with
     | ⟨rest, rel, lc, np, st⟩ =>
       { it with rest := rest, rel := rel, lastChar := lc, lastPosition := np,
                 lineOffsets := mergeLineOffsets it.lineOffsets st.reverse }
